@@ -11,7 +11,15 @@
   gone from the listing; no roster task is still owned by it; unless tasks were
   to be kept, every task launched for it was sent a KILL, or has ended, or sits
   unowned in the roster; every active detector belongs to a listed environment;
-  the calls it had pending were cancelled.
+  the calls it had pending were cancelled. It is what a creation that FAILED obliges.
+  A destroy request that answered SUCCESS obliges `destroyedClean k keep v`: `cleanAfter`
+  and — unless tasks were to be kept — `allKilled`: every task launched for k was sent a
+  KILL (one the master accepted) or has ended. A KILL call may fail (`State.refusing`,
+  fault step `killFault`): doKillTasks puts the task back into the roster, unowned and
+  still running, and reports an error that no later kill of the same loop resets; a
+  destroy whose clean-up met such a failure answers an error — "a destroy request that
+  cannot be honoured returns an error rather than success" (section "a KILL call that
+  fails"; tie `C06_kill_error_is_code`).
 
   Executors and agents may be lost at any time (steps `execLost`, `agentLost`; the
   environment's watcher then reacts: `watchError`): the tasks they ran are unlocked
@@ -99,7 +107,7 @@ def C06_destroyed_clean_full (c : Cfg) : Prop :=
   ∀ (s : State) (k : EnvId) (force allow keep : Bool) (o : DOracle) (E : Env), s.cfg = c →
     s.env? k = some E → envWf s k E.tasks = true → (∀ h ∈ E.hooks, h.task ∈ E.tasks) →
     (destroy s k force allow keep o).2.1 = .ok →
-    cleanAfter k keep (viewOf (destroy s k force allow keep o).1) = true
+    destroyedClean k keep (viewOf (destroy s k force allow keep o).1) = true
 
 /-- The same claim for the states in which a task the core believes inactive has really ended
     (`statusFaithful`, the hypothesis of the open finding launch_pending_leak) — with NO
@@ -110,9 +118,11 @@ def C06_destroyed_clean_hooks_full (c : Cfg) : Prop :=
     s.env? k = some E → envWf s k E.tasks = true → (∀ h ∈ E.hooks, h.task ∈ E.tasks) →
     statusFaithful s E.tasks = true →
     (destroy s k force allow keep o).2.1 = .ok →
-    cleanAfter k keep (viewOf (destroy s k force allow keep o).1) = true
+    destroyedClean k keep (viewOf (destroy s k force allow keep o).1) = true
 
-/-- **After a destroy that answered success the environment is clean** (`cleanAfter`): not
+/-- **After a destroy that answered success the environment is clean** (`destroyedClean` =
+    `cleanAfter` and, unless tasks were kept, `allKilled`: whatever KILL calls fail — `s.refusing`
+    is arbitrary — a destroy that answers success met no such failure): not
     listed, none of its tasks still owned by it — DESTROY / after_DESTROY hook tasks at any
     number of weights, ACTIVE or not, included —, every task launched for it sent a KILL or
     ended (unless the caller asked to keep tasks), every active detector held by a listed
@@ -130,7 +140,7 @@ theorem C06_destroyed_clean_partial (s : State) (k : EnvId) (force allow keep : 
     (hE : s.env? k = some E) (hwf : envWf s k E.tasks = true) (hhk : ∀ h ∈ E.hooks, h.task ∈ E.tasks)
     (hrel : hooksReleasable s E.hooks = true) (hfaith : statusFaithful s E.tasks = true)
     (hok : (destroy s k force allow keep o).2.1 = .ok) :
-    cleanAfter k keep (viewOf (destroy s k force allow keep o).1) = true :=
+    destroyedClean k keep (viewOf (destroy s k force allow keep o).1) = true :=
   destroy_clean s k force allow keep o E hE hwf hfaith (by simp [hooksOk, hrel]) hhk hok
 
 /-! ### finding destroy_hooks_unreleased (fixed) -/
@@ -321,7 +331,7 @@ theorem C06_destroyed_after_loss_clean_code (s : State) (hc : s.cfg = codeCfg) (
     (hE : s.env? k = some E) (hte : E.tearing = false) (hwf : envWf s k E.tasks = true) (hag : hostsAgree s E.tasks = true)
     (hfaith : statusFaithful s E.tasks = true) (hhk : ∀ h ∈ E.hooks, h.task ∈ E.tasks)
     (hok : (destroy (run s steps) k force allow keep o).2.1 = .ok) :
-    cleanAfter k keep (viewOf (destroy (run s steps) k force allow keep o).1) = true :=
+    destroyedClean k keep (viewOf (destroy (run s steps) k force allow keep o).1) = true :=
   destroy_after_loss_clean s steps hl k force allow keep o E hE hte hwf hag hfaith hhk
     (by simp [hooksOk, run_loss_cfg steps hl s, hc, codeCfg]) hok
 
@@ -351,7 +361,7 @@ theorem C06_destroyed_after_loss_clean_partial (s : State) (steps : List Step) (
     (hfaith : statusFaithful s E.tasks = true) (hhk : ∀ h ∈ E.hooks, h.task ∈ E.tasks)
     (hrel : hooksReleasable (run s steps) E.hooks = true)
     (hok : (destroy (run s steps) k force allow keep o).2.1 = .ok) :
-    cleanAfter k keep (viewOf (destroy (run s steps) k force allow keep o).1) = true :=
+    destroyedClean k keep (viewOf (destroy (run s steps) k force allow keep o).1) = true :=
   destroy_after_loss_clean s steps hl k force allow keep o E hE hte hwf hag hfaith hhk (by simp [hooksOk, hrel]) hok
 
 /-- The same for the failure tail of a creation. -/
@@ -395,6 +405,107 @@ example :
 example : cleanAfter 0 true
     { roster := [{ task := 1, owner := some 0, locked := false, state := none },
                  { task := 2, owner := none, locked := false, state := none }] } = false := by decide
+
+/-! ## a KILL call that fails -/
+
+/-- **A failing KILL call is reported, whatever comes after it in the loop**: the error of
+    doKillTasks over a list is the disjunction of the errors over its parts — a failed kill
+    followed by any number of successful ones still makes the call fail (and so does one
+    preceded by successful ones). No hypothesis. -/
+theorem C06_kill_error_not_reset (s : State) (a b : List Task) :
+    killErr s (a ++ b) = (killErr s a || killErr s b) := by
+  simp [killErr, List.any_append]
+
+/-- … and it is reported exactly when some ACTIVE task of the list has its KILL call failing. -/
+theorem C06_kill_error_iff (s : State) (tk : List Task) :
+    killErr s tk = true ↔ ∃ t ∈ tk, t.active = true ∧ t.id ∈ s.refusing := by
+  simp [killErr, List.any_eq_true]
+
+/-- **A task whose KILL call failed is put back**: it is in the roster afterwards exactly as it
+    was handed to doKillTasks (unlocked: Cleanup / KillTasks pick unlocked tasks only), the
+    master's row for it is untouched (it keeps running, no KILL is counted), and the call
+    reports the error. -/
+theorem C06_failed_kill_put_back (s : State) (tk : List Task) (t : Task) (ht : t ∈ tk) (ha : t.active = true)
+    (hr : t.id ∈ s.refusing) :
+    t ∈ (doKill s tk).roster ∧ (∀ m ∈ s.master, m.id = t.id → m ∈ (doKill s tk).master) ∧ killErr s tk = true := by
+  refine ⟨?_, ?_, (C06_kill_error_iff s tk).mpr ⟨t, ht, ha, hr⟩⟩
+  · rw [doKill_roster]
+    exact List.mem_append.mpr (Or.inr (List.mem_filter.mpr ⟨List.mem_filter.mpr ⟨ht, ha⟩, by simpa using hr⟩))
+  · intro m hm hid
+    simp only [doKill, killMany, List.mem_map]
+    refine ⟨m, hm, ?_⟩
+    have : m.id ∉ List.map (fun x => x.id) (List.filter (fun t => decide (t.id ∉ s.refusing)) (List.filter (fun x => x.active) tk)) := by
+      intro hmem
+      obtain ⟨u, hu, hu2⟩ := List.mem_map.mp hmem
+      have := (List.mem_filter.mp hu).2
+      simp only [decide_eq_true_eq] at this
+      exact this (by rw [hu2, hid]; exact hr)
+    rw [if_neg (by simpa [List.mem_map] using this)]
+
+/-- **A clean-up that met a failing KILL call makes doTeardownAndCleanup answer an error** — after a
+    teardown that completed, with tasks not to be kept; the environment is gone all the same
+    (the state is the cleaned-up one). With keepTasks nothing is killed and nothing can fail. -/
+theorem C06_failed_kill_is_error (s' : State) (ids : List TaskId) (tr : List TEv) :
+    (cleanupTasksErr s' ids = true → (tcFin false ids s' .ok tr).2.1 = .err) ∧
+    (cleanupTasksErr s' ids = false → (tcFin false ids s' .ok tr).2.1 = .ok) ∧
+    (tcFin false ids s' .ok tr).1 = cleanupTasks s' ids ∧
+    (tcFin true ids s' .ok tr) = (s', .ok, tr) := by
+  refine ⟨fun h => by simp [tcFin, h], fun h => by simp [tcFin, h], by simp [tcFin], by simp [tcFin]⟩
+
+/-- **A destroy that answers success killed every task of the environment** (unless asked to
+    keep them) — the code as it is, whatever KILL calls fail: none of the environment's tasks is
+    left running without a KILL, not even unowned in the roster. Contrapositive: a destroy that
+    could not have one of the environment's tasks killed does not answer success. -/
+theorem C06_success_means_all_killed (s : State) (hc : s.cfg = codeCfg) (k : EnvId) (force allow : Bool) (o : DOracle) (E : Env)
+    (hE : s.env? k = some E) (hwf : envWf s k E.tasks = true) (hhk : ∀ h ∈ E.hooks, h.task ∈ E.tasks)
+    (hfaith : statusFaithful s E.tasks = true)
+    (hok : (destroy s k force allow false o).2.1 = .ok) :
+    allKilled k (viewOf (destroy s k force allow false o).1) = true :=
+  destroyedClean_killed (destroy_clean s k force allow false o E hE hwf hfaith (by simp [hooksOk, hc, codeCfg]) hhk hok)
+
+/-- The environment of `lossState` when the KILL call for task 1 fails (and the one for task 2 does not). -/
+def refusingState : State := (step lossState (.killFault [1])).1
+
+/-- Non-vacuity, and the clause at work: the plain destroy completes its teardown (the environment
+    is gone, both tasks released), task 2 is killed, the KILL call for task 1 fails: the task sits
+    in the roster again, unowned, still running — and the request answers an error although a
+    later kill of the same loop succeeded. `cleanAfter` accepts that view (it is what a failed
+    creation may leave), `destroyedClean` — what a destroy that answered success would have to
+    satisfy — rejects it. Without the fault the same destroy answers success and kills both. -/
+example :
+    (destroy refusingState 0 false false false {}).2.1 = .err ∧
+    (viewOf (destroy refusingState 0 false false false {}).1).envs = [] ∧
+    (viewOf (destroy refusingState 0 false false false {}).1).roster = [{ task := 1, owner := none, locked := false, state := none }] ∧
+    (viewOf (destroy refusingState 0 false false false {}).1).master =
+      [{ task := 1, label := 0, mesos := .running, killed := false }, { task := 2, label := 0, mesos := .terminal, killed := true }] ∧
+    cleanAfter 0 false (viewOf (destroy refusingState 0 false false false {}).1) = true ∧
+    destroyedClean 0 false (viewOf (destroy refusingState 0 false false false {}).1) = false ∧
+    (destroy lossState 0 false false false {}).2.1 = .ok ∧
+    destroyedClean 0 false (viewOf (destroy lossState 0 false false false {}).1) = true ∧
+    -- the next cleanup, once the fault is over, finds the task
+    (step (step (destroy refusingState 0 false false false {}).1 (.killFault [])).1 .cleanup).2 = .ok ∧
+    (viewOf (step (step (destroy refusingState 0 false false false {}).1 (.killFault [])).1 .cleanup).1).roster = [] := by decide
+
+/-- **The failure tail of a creation only logs a failing KILL call**: the creation answers its own
+    error, and the task is back in the roster, unowned — `cleanAfter` holds (it falls to the next
+    cleanup), which is all a failed creation obliges (`C06_failed_create_clean_code` is proved for
+    every `s.refusing`). -/
+example :
+    (createFail refusingState 0 [1, 2] false .errConfigure).2 = .errConfigure ∧
+    (viewOf (createFail refusingState 0 [1, 2] false .errConfigure).1).roster = [{ task := 1, owner := none, locked := false, state := none }] ∧
+    cleanAfter 0 false (viewOf (createFail refusingState 0 [1, 2] false .errConfigure).1) = true ∧
+    allKilled 0 (viewOf (createFail refusingState 0 [1, 2] false .errConfigure).1) = false := by decide
+
+/-- **The model's doKillTasks error is the code's**: go/ast of core/task/manager.go finds, in
+    doKillTasks, the result of every `m.doKillTask(task)` bound to a variable of the loop body (never to
+    the function's result `err`), the result `err` assigned only inside the branch taken when
+    that variable is not nil, only from a constructor call (`errors.New` / `fmt.Errorf`), with
+    `m.roster.append(task)` in the same branch, every `return` of the function bare; Cleanup and
+    KillTasks assign `err` from doKillTasks once and never again, doCleanupTasks assigns its `err`
+    only from Cleanup / KillTasks, and doTeardownAndCleanup returns an error status in the branch
+    `err != nil` after doCleanupTasks. An error that a later kill can reset breaks this theorem. -/
+theorem C06_kill_error_is_code :
+    Gen.killErrorSticky = true ∧ Gen.killErrorHandedOn = true ∧ Gen.killErrorCounts = (1, 1, 1, 0) := by decide
 
 /-! ## order inside a teardown -/
 
@@ -498,9 +609,9 @@ theorem C06_overlapping_destroy_clean_code (s : State) (hc : s.cfg = codeCfg) (k
     (o : DOracle) (E : Env)
     (hE : s.env? k = some E) (hwf : envWf s k E.tasks = true) (hhk : ∀ h ∈ E.hooks, h.task ∈ E.tasks)
     (hfaith : statusFaithful s E.tasks = true) :
-    (∀ r, lateAttempt s k (envTaskIds s k) force keep o = some r → r.2.1 = .ok → cleanAfter k keep (viewOf r.1) = true) ∧
+    (∀ r, lateAttempt s k (envTaskIds s k) force keep o = some r → r.2.1 = .ok → destroyedClean k keep (viewOf r.1) = true) ∧
     ((lateRetry s k (envTaskIds s k) keep o).2.1 = .ok →
-      cleanAfter k keep (viewOf (lateRetry s k (envTaskIds s k) keep o).1) = true) :=
+      destroyedClean k keep (viewOf (lateRetry s k (envTaskIds s k) keep o).1) = true) :=
   ⟨fun r hr hok => lateAttempt_clean s k force keep o E hE hwf hfaith (by simp [hooksOk, hc, codeCfg]) hhk r hr hok,
    fun hok => lateRetry_clean s k keep o E hE hwf hfaith (by simp [hooksOk, hc, codeCfg]) hhk hok⟩
 
@@ -509,9 +620,9 @@ theorem C06_overlapping_destroy_clean_partial (s : State) (k : EnvId) (force kee
     (o : DOracle) (E : Env)
     (hE : s.env? k = some E) (hwf : envWf s k E.tasks = true) (hhk : ∀ h ∈ E.hooks, h.task ∈ E.tasks)
     (hrel : hooksReleasable s E.hooks = true) (hfaith : statusFaithful s E.tasks = true) :
-    (∀ r, lateAttempt s k (envTaskIds s k) force keep o = some r → r.2.1 = .ok → cleanAfter k keep (viewOf r.1) = true) ∧
+    (∀ r, lateAttempt s k (envTaskIds s k) force keep o = some r → r.2.1 = .ok → destroyedClean k keep (viewOf r.1) = true) ∧
     ((lateRetry s k (envTaskIds s k) keep o).2.1 = .ok →
-      cleanAfter k keep (viewOf (lateRetry s k (envTaskIds s k) keep o).1) = true) :=
+      destroyedClean k keep (viewOf (lateRetry s k (envTaskIds s k) keep o).1) = true) :=
   ⟨fun r hr hok => lateAttempt_clean s k force keep o E hE hwf hfaith (by simp [hooksOk, hrel]) hhk r hr hok,
    fun hok => lateRetry_clean s k keep o E hE hwf hfaith (by simp [hooksOk, hrel]) hhk hok⟩
 
@@ -572,10 +683,10 @@ theorem C06_created_then_destroyed_clean_code (s0 : State) (h : Inv s0) (hc : s0
     (hok : (createSettle (run s0 [.createBegin k spec, .createCleanup k, .createInsert k]) k o).2 = .okState .CONFIGURED)
     (force allow keep : Bool) (od : DOracle) :
     let s4 := (createSettle (run s0 [.createBegin k spec, .createCleanup k, .createInsert k]) k o).1
-    ((destroy s4 k force allow keep od).2.1 = .ok → cleanAfter k keep (viewOf (destroy s4 k force allow keep od).1) = true) ∧
-    (∀ r, lateAttempt s4 k (envTaskIds s4 k) force keep od = some r → r.2.1 = .ok → cleanAfter k keep (viewOf r.1) = true) ∧
+    ((destroy s4 k force allow keep od).2.1 = .ok → destroyedClean k keep (viewOf (destroy s4 k force allow keep od).1) = true) ∧
+    (∀ r, lateAttempt s4 k (envTaskIds s4 k) force keep od = some r → r.2.1 = .ok → destroyedClean k keep (viewOf r.1) = true) ∧
     ((lateRetry s4 k (envTaskIds s4 k) keep od).2.1 = .ok →
-      cleanAfter k keep (viewOf (lateRetry s4 k (envTaskIds s4 k) keep od).1) = true) := by
+      destroyedClean k keep (viewOf (lateRetry s4 k (envTaskIds s4 k) keep od).1) = true) := by
   intro s4
   have h3 : Inv (run s0 [.createBegin k spec, .createCleanup k, .createInsert k]) := inv_run s0 _ (by simp [noClaimSteps, Step.isClaim]) h
   have rc := rc_run [.createBegin k spec, .createCleanup k, .createInsert k] s0 (Or.inl hr)
@@ -592,9 +703,9 @@ theorem C06_created_then_destroyed_clean_code (s0 : State) (h : Inv s0) (hc : s0
 theorem C06_destroyed_after_deploy_clean_code (s : State) (h : Inv s) (hc : s.cfg = codeCfg) (hr : s.reuse = false)
     (k : EnvId) (hfr : freshEnv s k = true) (o : SettleOracle) (s1 : State) (m : Mid) (r : Res)
     (hd : settleDeploy s k o = (s1, some m, r)) (hm : m.res = .noop) (force keep : Bool) (od : DOracle) :
-    (∀ r', lateAttempt s1 k (envTaskIds s1 k) force keep od = some r' → r'.2.1 = .ok → cleanAfter k keep (viewOf r'.1) = true) ∧
+    (∀ r', lateAttempt s1 k (envTaskIds s1 k) force keep od = some r' → r'.2.1 = .ok → destroyedClean k keep (viewOf r'.1) = true) ∧
     ((lateRetry s1 k (envTaskIds s1 k) keep od).2.1 = .ok →
-      cleanAfter k keep (viewOf (lateRetry s1 k (envTaskIds s1 k) keep od).1) = true) := by
+      destroyedClean k keep (viewOf (lateRetry s1 k (envTaskIds s1 k) keep od).1) = true) := by
   obtain ⟨_, _, hcfg, E, hE, _, _, hwf, hhk, hfa⟩ := deploy_ok_hyps s k o h hr hfr s1 m r hd hm
   exact C06_overlapping_destroy_clean_code s1 (hcfg.trans hc) k force keep od E hE hwf hhk hfa
 
